@@ -805,6 +805,73 @@ def decorations(mod, x, rng, level, with_positions=True):
     return out
 
 
+_tables = {}
+
+
+def module_tables(mod):
+    """{attribute name: [str, ...]}: the strings held by the module-level containers of a number module (tuples,
+    lists, sets, dicts - keys and values -, nested up to three levels): court names and their aliases, state
+    codes, type letters, black lists ...  Read from the imported module, i.e. from the tree under test."""
+    name = mod.__name__
+    if name in _tables:
+        return _tables[name]
+    out = {}
+
+    def walk(v, acc, depth):
+        if len(acc) > 6000 or depth > 3:
+            return
+        if isinstance(v, str):
+            if 2 <= len(v) <= 60 and v not in acc:
+                acc.append(v)
+        elif isinstance(v, dict):
+            for k in v:
+                walk(k, acc, depth + 1)
+                walk(v[k], acc, depth + 1)
+        elif isinstance(v, (tuple, list)):
+            for x in v:
+                walk(x, acc, depth + 1)
+        elif isinstance(v, (set, frozenset)):
+            for x in sorted((y for y in v if isinstance(y, str))):
+                walk(x, acc, depth + 1)
+    for attr in sorted(vars(mod)):
+        v = vars(mod)[attr]
+        if attr.startswith('__') or not isinstance(v, (dict, tuple, list, set, frozenset)):
+            continue
+        acc = []
+        walk(v, acc, 0)
+        if 2 <= len(acc) <= 6000:
+            out[attr] = acc
+    _tables[name] = out
+    return out
+
+
+def table_variants(mod, x, rng, limit):
+    """[(label, y)]: where a part of x is a member of one of the module's own tables (longest case-insensitive
+    occurrence per table), every other member of that table put in its place: one input per table row, so that
+    every alias / code the module knows is exercised and not only the ones that happen to be in the examples.
+    At most `limit` variants (deterministic sample)."""
+    out, seen = [], {x}
+    xl = x.lower()
+    for attr, members in module_tables(mod).items():
+        best = None
+        for t in members:
+            i = xl.find(t.lower())
+            if i >= 0 and (best is None or len(t) > best[1] - best[0]):
+                best = (i, i + len(t))
+        if best is None:
+            continue
+        i, j = best
+        for u in members:
+            y = x[:i] + u + x[j:]
+            if y not in seen:
+                seen.add(y)
+                out.append(('table:' + attr, y))
+    if len(out) > limit:
+        idx = sorted(rng.sample(range(len(out)), limit))
+        out = [out[k] for k in idx]
+    return out
+
+
 def field_starts(x):
     """positions where a field of x begins: 0 and the positions right after a character that is not a letter or digit"""
     return [i for i in range(len(x)) if x[i].isalnum() and (i == 0 or not x[i - 1].isalnum())]
